@@ -181,3 +181,33 @@ Proof.
   exists 3000, [route_conf [OptTimeout 20000000]; route_conf []], (route_conf [OptTimeout 20000000]), 0.
   vm_compute. repeat split; auto.
 Qed.
+
+(* (8) seeded change C04-4: the zRPC client interceptor calls the invoker with the caller's
+   context as it is when the caller's deadline is due within the client's DEFAULT timeout —
+   instead of within the EFFECTIVE one (a per-call WithCallTimeout may be shorter) *)
+Definition client_deadline_fastpath (opts : list Z) (default : Z) (parent : option Z) (now : Z) : option Z :=
+  let t := call_timeout opts default in
+  if t <=? 0 then parent
+  else match parent with
+       | Some p => if p - now <=? default then parent else Some (with_timeout parent now t)
+       | None => Some (with_timeout parent now t)
+       end.
+
+(* Props.deadline_shrinks_client fails for it: default 1 h, caller has 30 min left, per-call
+   timeout 20 min: the call runs under the caller's deadline, later than now + 20 min *)
+Theorem client_fastpath_refuted :
+  exists opts default parent now d,
+    0 < call_timeout opts default /\
+    client_deadline_fastpath opts default parent now = Some d /\
+    now + call_timeout opts default < d.
+Proof. exists [1200], 3600, (Some 1800), 0, 1800. vm_compute. repeat split. Qed.
+
+(* ... and it is the same function whenever no per-call option is given *)
+Theorem client_fastpath_same_without_option : forall default parent now,
+  client_deadline_fastpath [] default parent now = client_deadline [] default parent now.
+Proof.
+  intros default parent now. unfold client_deadline_fastpath, client_deadline, call_timeout, with_timeout.
+  destruct (Z.leb_spec default 0); [reflexivity|]. destruct parent as [p|]; [|reflexivity].
+  destruct (Z.leb_spec (p - now) default); [|reflexivity]. f_equal. rewrite Z.min_l; [reflexivity|].
+  apply Z.le_sub_le_add_l. assumption.
+Qed.
